@@ -401,7 +401,8 @@ theorem paired_importInterface (k : Str) (i : Iface) : Paired (importInterface k
 
 theorem paired_exportInterface (k : Str) (i : Iface) : Paired (exportInterface k i) := by
   unfold exportInterface
-  exact paired_append (paired_append (paired_ifaceHead _ _) (paired_defineTypes _ _)) (paired_funcsOps _)
+  exact paired_append (paired_append (paired_append (paired_append (paired_ifaceHead _ _)
+    (paired_of_noHref (hrefsOf_docsOps _))) (paired_of_noHref rfl)) (paired_defineTypes _ _)) (paired_funcsOps _)
 
 theorem hrefsOf_worldHead (a b : Str) : hrefsOf (worldHead a b) = [] := rfl
 
@@ -862,14 +863,13 @@ theorem docLits_importInterface (k : Str) (i : Iface) :
     (docLits_mono (by intro op h; simp [h]) h)) (docLits_mono (by intro op h; simp [h]) (docLits_funcsOps i.funcs))
 
 theorem docLits_exportInterface (k : Str) (i : Iface) :
-    Panics (exportInterface k i) ∨
-      DocLits (i.types.flatMap typeDocs ++ i.funcs.filterMap (·.docs)) (exportInterface k i) := by
-  unfold exportInterface
+    Panics (exportInterface k i) ∨ DocLits (ifaceDocs i) (exportInterface k i) := by
+  unfold exportInterface ifaceDocs
   rcases docLits_defineTypes i.types false with h | h
   · left; exact panics_mono (by intro op h; simp [h]) h
   right
-  exact docLits_append (docLits_mono (by intro op h; simp [h]) h)
-    (docLits_mono (by intro op h; simp [h]) (docLits_funcsOps i.funcs))
+  exact docLits_append (docLits_append (docLits_mono (by intro op h; simp [h]) (docLits_docsOps i.docs))
+    (docLits_mono (by intro op h; simp [h]) h)) (docLits_mono (by intro op h; simp [h]) (docLits_funcsOps i.funcs))
 
 /-- the seven segments of `genOps` -/
 theorem genOps_segments (w : World) : genOps w =
@@ -941,6 +941,30 @@ theorem docLits_genOps (w : World) : Panics (genOps w) ∨ DocLits (printedDocs 
         (List.mem_append_right _ h1)
       exact List.mem_append_right _ (List.mem_append_right _ (List.mem_append_right _ (List.mem_append_right _ (List.mem_append_right _ (List.mem_append_left _ this)))))
     | type k t => simp [exportItemDocs] at hd
+
+/-- Without a panic the world has no exported type item, so every doc comment of the world is one
+the generator prints. -/
+theorem allDocs_sub_printedDocs (w : World) (hp : ¬ Panics (genOps w)) :
+    ∀ d ∈ allDocs w, d ∈ printedDocs w := by
+  intro d hd
+  simp only [allDocs, printedDocs, List.mem_append, List.mem_flatMap] at hd ⊢
+  rcases hd with (hd | hd) | ⟨it, hit, hd⟩
+  · exact Or.inl (Or.inl hd)
+  · exact Or.inl (Or.inr hd)
+  · right
+    refine ⟨it, hit, ?_⟩
+    cases it with
+    | iface k i => exact hd
+    | func k f => exact hd
+    | type k t =>
+      exfalso
+      apply hp
+      refine ⟨s "internal error: entered unreachable code", ?_⟩
+      rw [genOps_segments]
+      have := sub_ite_nonempty (mem_itemTypes hit) [Op.panic (s "internal error: entered unreachable code")]
+        (List.mem_singleton.mpr rfl)
+      exact List.mem_append_right _ (List.mem_append_right _ (List.mem_append_right _ (List.mem_append_right _
+        (List.mem_append_left _ this))))
 
 /-! ## ids and fragments of the rendered anchors -/
 
